@@ -12,7 +12,7 @@ import subprocess
 import threading
 from multiprocessing import Pool
 
-NAMES = ["a", "d/b", ".copiarc", "with space/q'uote", "d\\b"]          # the last one is ONE component containing a backslash
+NAMES = ["a", "d/b", ".copiarc", "with space/q'uote", "d\\b", "raw\udcff.bin"]          # 'd\\b' is ONE component containing a backslash; the last name is the byte string b'raw\\xff.bin' (not UTF-8)
 CONTENT = {1: b"one-" * 50 + b"\n", 2: b"two!" * 700 + b"\n" + b"\0" * 140_000, 3: b"", 4: b"four" * 20000}
 BY_BYTES = {v: k for k, v in CONTENT.items()}
 CFG = {}
@@ -111,7 +111,8 @@ def run_history(job):
         snap1 = snapshot(hub)
         code2, s2, u2, cf2, _ = hub_sync(local, hub, form)
         snap2 = snapshot(hub)
-        recs.append({"kind": "seq", "names": NAMES, "form": form, "client": c, "local": list(locs[c]), "hub": before, "conf": conf_b, "hub2": after, "conf2": conf_a,
+        recs.append({"kind": "seq", "names": NAMES, "form": form, "client": c, "local": list(locs[c]),
+                     "unsendable": any(v and "\udcff" in NAMES[i] for i, v in enumerate(locs[c])), "hub": before, "conf": conf_b, "hub2": after, "conf2": conf_a,
                      "alien": alien, "exit": code, "sent": s, "skipped": u, "conflicts": cf,
                      "second": {"exit": code2, "sent": s2, "conflicts": cf2, "unchanged": snap1 == snap2}, "stderr": err if code else ""})
     return recs
@@ -126,9 +127,13 @@ def race(job):
     hub = os.path.join(d, "hub")
     hub0 = [rng.choice([0, 1]) for _ in NAMES]
     write_tree(hub, hub0)
-    la = [rng.choice([0, 2, 2, 4]) for _ in NAMES]
-    lb = [rng.choice([0, 3, 1, 2]) for _ in NAMES]
-    k = rng.randrange(len(NAMES))
+    # (the name the wire cannot carry makes a client refuse to start: it is left to the sequential runs)
+    sendable = [i for i, n in enumerate(NAMES) if n.isprintable() and "\udcff" not in n]
+    hub0 = [c if i in sendable else 0 for i, c in enumerate(hub0)]
+    write_tree(hub, hub0)
+    la = [rng.choice([0, 2, 2, 4]) if i in sendable else 0 for i, _ in enumerate(NAMES)]
+    lb = [rng.choice([0, 3, 1, 2]) if i in sendable else 0 for i, _ in enumerate(NAMES)]
+    k = rng.choice(sendable)
     la[k], lb[k] = 2, rng.choice([1, 3])          # at least one path both want, with different content
     if hub0[k] == lb[k]:
         lb[k] = 3 if lb[k] == 1 else 1
